@@ -1,6 +1,6 @@
 use insim_core::{
     binrw::{self, binrw},
-    string::{binrw_parse_codepage_string, binrw_write_codepage_string},
+    string::{binrw_parse_codepage_string, binrw_write_codepage_string_nul_terminated},
 };
 
 use crate::identifiers::RequestId;
@@ -15,7 +15,7 @@ pub struct Mst {
     pub reqi: RequestId,
 
     /// Message
-    #[bw(write_with = binrw_write_codepage_string::<64, _>)]
+    #[bw(write_with = binrw_write_codepage_string_nul_terminated::<64, _>)]
     #[br(parse_with = binrw_parse_codepage_string::<64, _>)]
     pub msg: String,
 }
